@@ -773,6 +773,111 @@ def r02_10(ctx: Ctx):
     return obs
 
 
+def r02_11(ctx: Ctx):
+    """R02.11 no evaluation result is kept in state shared between instances: a mutable container defined in a class body and mutated through `self` is one object for all instances (e.g. a fitness cache shared by different objectives)."""
+    obs = []
+    n = 0
+    MUT = {"append", "extend", "insert", "update", "setdefault", "add", "pop", "clear", "remove", "__setitem__"}
+    for ci in ctx.prog.classes.values():
+        if not ci.module.name.startswith(("pyhms.core", "pyhms.utils.cache", "pyhms.demes", "pyhms.sprout", "pyhms.stop_conditions")):
+            continue
+        n += 1
+        shared = {}
+        for st in ci.node.body:
+            tgt, val = None, None
+            if isinstance(st, ast.Assign) and len(st.targets) == 1 and isinstance(st.targets[0], ast.Name):
+                tgt, val = st.targets[0].id, st.value
+            elif isinstance(st, ast.AnnAssign) and isinstance(st.target, ast.Name) and st.value is not None:
+                tgt, val = st.target.id, st.value
+            if tgt and (isinstance(val, (ast.Dict, ast.List, ast.Set)) or (isinstance(val, ast.Call) and norm(val.func) in ("dict", "list", "set", "defaultdict", "collections.defaultdict", "OrderedDict"))):
+                shared[tgt] = st
+        if not shared:
+            continue
+        for m in ci.methods.values():
+            sn = m.self_name()
+            if sn is None:
+                continue
+            rebinds = {t.attr for x in body_walk(m.node) if isinstance(x, (ast.Assign, ast.AnnAssign)) for t in (x.targets if isinstance(x, ast.Assign) else [x.target]) if is_self_attr(t, None, sn)}
+            for x in body_walk(m.node):
+                hit = None
+                if isinstance(x, ast.Call) and isinstance(x.func, ast.Attribute) and x.func.attr in MUT and is_self_attr(x.func.value, None, sn) and x.func.value.attr in shared:
+                    hit = x.func.value.attr
+                if isinstance(x, (ast.Assign, ast.AugAssign)):
+                    for t in (x.targets if isinstance(x, ast.Assign) else [x.target]):
+                        if isinstance(t, ast.Subscript) and is_self_attr(t.value, None, sn) and t.value.attr in shared:
+                            hit = t.value.attr
+                if hit is not None:
+                    init = ci.methods.get("__init__")
+                    init_rebinds = init is not None and hit in {t.attr for y in body_walk(init.node) if isinstance(y, (ast.Assign, ast.AnnAssign)) for t in (y.targets if isinstance(y, ast.Assign) else [y.target]) if is_self_attr(t, None, init.self_name())}
+                    if not init_rebinds:
+                        obs.append(ctx.ob("R02.11", m, x, status=VIOLATION, detail=f"{ci.name}.{hit} is a mutable container defined in the class body and written by {m.short} through `self`: one object shared by every instance (values stored for one problem are handed out for another)", construct=f"{ci.name}.{hit}"))
+    if n < 40:
+        raise AnalysisError(f"only {n} classes scanned for shared mutable class state")
+    if not obs:
+        obs.append(ctx.ob("R02.11", None, None, subject="pyhms", loc="-", detail=f"{n} classes: no container defined in a class body is mutated through an instance", construct="no-shared-class-state"))
+    return obs
+
+
+def r02_12(ctx: Ctx):
+    """R02.12 an individual is never created with another level's fitness: `Individual(g, problem=<this deme's problem>, fitness=<sprout seed>.fitness)` pairs a genome with a value computed by the parent level's objective."""
+    obs = []
+    n = 0
+    for ci in ctx.concrete_demes():
+        for f in ctx.prog.functions_in(ci):
+            defs = local_defs(f)
+            for c in body_walk(f.node):
+                if not (isinstance(c, ast.Call) and ctx.prog.resolve_class_expr(c.func, f.module) is ctx.prog.cls("Individual")):
+                    continue
+                n += 1
+                fit = next((k.value for k in c.keywords if k.arg == "fitness"), c.args[2] if len(c.args) > 2 else None)
+                if fit is None:
+                    continue
+                ft = canon(fit, defs)
+                if ft.endswith(("sprout_seed.fitness", "_sprout_seed.fitness")) or (".sprout_seed" in ft and ft.endswith(".fitness")):
+                    obs.append(ctx.ob("R02.12", f, c, status=VIOLATION, detail=f"{ci.name}: `{norm(c)[:80]}` attaches the sprout seed's fitness — computed by the parent level's problem — to an individual of this deme's own problem: with different objectives per level the stored value is not the objective value of the genome", construct=f"{ci.name}:seed-fitness"))
+    if n < 8:
+        raise AnalysisError(f"only {n} Individual constructions in deme classes found")
+    if not obs:
+        obs.append(ctx.ob("R02.12", None, None, subject="pyhms.demes", loc="-", detail=f"{n} Individual constructions in deme classes: none inherits the sprout seed's fitness", construct="no-foreign-fitness"))
+    return obs
+
+
+def r02_13(ctx: Ctx):
+    """R02.13 genomes of recorded individuals are not rows of a buffer the deme keeps and overwrites: no `out=self.<attr>` / in-place arithmetic on an attribute-held array whose rows are wrapped in Individuals."""
+    obs = []
+    n = 0
+    for ci in ctx.concrete_demes():
+        for f in ctx.prog.functions_in(ci):
+            if f.parent is not None:
+                continue
+            sn = f.self_name() or "self"
+            n += 1
+            buf_alias = {}
+            for st in body_walk(f.node):
+                if isinstance(st, ast.Assign) and len(st.targets) == 1 and isinstance(st.targets[0], ast.Name) and isinstance(st.value, ast.Call):
+                    o = next((k.value for k in st.value.keywords if k.arg == "out"), None)
+                    if o is not None and is_self_attr(o, None, sn):
+                        buf_alias[st.targets[0].id] = o.attr
+                if isinstance(st, ast.Assign) and len(st.targets) == 1 and isinstance(st.targets[0], ast.Name) and is_self_attr(st.value, None, sn):
+                    # plain alias of an attribute that is written in place somewhere in the class
+                    attr = st.value.attr
+                    inplace = any(isinstance(y, ast.Call) and any(k.arg == "out" and is_self_attr(k.value, attr, (g.self_name() or "self")) for k in y.keywords) for g in ctx.prog.functions_in(ci) for y in body_walk(g.node)) or any(isinstance(y, ast.AugAssign) and is_self_attr(y.target, attr, (g.self_name() or "self")) for g in ctx.prog.functions_in(ci) for y in body_walk(g.node))
+                    if inplace:
+                        buf_alias[st.targets[0].id] = attr
+            if not buf_alias:
+                continue
+            for c in body_walk(f.node):
+                if isinstance(c, (ast.ListComp, ast.GeneratorExp)) and isinstance(c.elt, ast.Call) and norm(c.elt.func).split(".")[-1] == "Individual" and c.elt.args:
+                    g = c.generators[0]
+                    if isinstance(g.iter, ast.Name) and g.iter.id in buf_alias and isinstance(g.target, ast.Name) and norm(c.elt.args[0]) == g.target.id:
+                        obs.append(ctx.ob("R02.13", f, c, status=VIOLATION, detail=f"{ci.name}: the individuals' genomes are rows (views) of `{g.iter.id}`, which is the deme's reusable buffer `self.{buf_alias[g.iter.id]}` written in place: the next sample overwrites the genomes of every generation already recorded in the history", construct=f"{ci.name}:{buf_alias[g.iter.id]}"))
+    if n < 10:
+        raise AnalysisError(f"only {n} deme methods scanned")
+    if not obs:
+        obs.append(ctx.ob("R02.13", None, None, subject="pyhms.demes", loc="-", detail=f"{n} deme methods: no recorded genome is a view of a buffer the deme keeps writing", construct="no-buffer-views"))
+    return obs
+
+
 RULES = [
     ("R02.1", r02_1, 8),
     ("R02.2", r02_2, 2),
@@ -784,4 +889,7 @@ RULES = [
     ("R02.8", r02_8, 14),
     ("R02.9", r02_9, 1),
     ("R02.10", r02_10, 8),
+    ("R02.11", r02_11, 1),
+    ("R02.12", r02_12, 1),
+    ("R02.13", r02_13, 1),
 ]
